@@ -2,6 +2,7 @@ use crate::common::{Tier, Violation};
 use serde_json::Value;
 
 pub mod c06;
+pub mod c11;
 pub mod c18;
 pub mod c16;
 pub mod c10;
@@ -15,6 +16,7 @@ pub mod c17;
 pub fn run(id: &str, tier: Tier) -> i32 {
     match id {
         "C06" => c06::run(tier),
+        "C11" => c11::run(tier),
         "C18" => c18::run(tier),
         "C16" => c16::run(tier),
         "C10" => c10::run(tier),
@@ -36,6 +38,7 @@ pub fn replay(id: &str, v: &Value) -> i32 {
     let case = &v["case"];
     let f: fn(&Value) -> Option<Violation> = match id {
         "C06" => c06::replay_case,
+        "C11" => c11::replay_case,
         "C18" => c18::replay_case,
         "C16" => c16::replay_case,
         "C10" => c10::replay_case,
